@@ -20,7 +20,7 @@ EXPLANATION = (
     "on every normal path. NOT decided: time stamp == start + elapsed + delays (arithmetic), the monotonicity repair "
     "constants.")
 
-FLOOR = {"S1": 4, "S2": 3, "S3": 3, "S4": 3, "S5": 3, "S6": 5}
+FLOOR = {"S1": 4, "S2": 4, "S3": 3, "S4": 3, "S5": 3, "S6": 5}
 
 
 def s1(ctx, rep):
@@ -76,6 +76,29 @@ def s2(ctx, rep):
     bad = [(g, n, k) for g, n, k in ws if g.cls is not c]
     rep.put(not bad and len(ws) >= 3, "S2", "who_may_write", "SimulatorState.event_heap is touched only by SimulatorState", c, None, f"{len(ws)} sites",
             ", ".join(g.short for g, n, k in bad))
+    # the attribute always holds a heap: a freshly built list is heapified (the very list that is stored)
+    for m in c.methods.values():
+        if m.name in ("__init__", "__setstate__"):
+            continue            # the constructor takes over a heap this class produced earlier (state restore) or the empty list
+        cm = cfg_of(m)
+        for nd in cm.nodes:
+            if not (nd.kind == "stmt" and isinstance(nd.ast, ast.Assign) and any(U(t) == "self.event_heap" for t in nd.ast.targets)):
+                continue
+            v = nd.ast.value
+            if isinstance(v, (ast.List,)) and not v.elts:
+                continue            # the empty list is a heap
+            hp_attr = {x.id for x in cm.nodes for y in cm.node_walk(x.id)
+                       if isinstance(y, ast.Call) and fn_name(y) == "heapify" and y.args and U(y.args[0]) == "self.event_heap"}
+            after = bool(hp_attr) and cm.path([s_ for s_, l in cm.succ[nd.id]], cm.exit, deleted=hp_attr, skip_labels=("exc",)) is None
+            before = False
+            if isinstance(v, ast.Name):
+                hp_name = {x.id for x in cm.nodes for y in cm.node_walk(x.id)
+                           if isinstance(y, ast.Call) and fn_name(y) == "heapify" and y.args and U(y.args[0]) == v.id}
+                before = bool(hp_name) and cm.path(cm.entry, nd.id, deleted=hp_name) is None
+            rep.put(after or before, "S2", "must_follow", f"SimulatorState.{m.name}: a rebuilt event list is heapified before it is used as the heap", m, nd.ast,
+                    "heapq.heapify applied to the list stored in self.event_heap",
+                    f"`{U(nd.ast)[:70]}` stores a list that is not heapified (heapify is applied to another object, or not on every path): "
+                    "heappop then returns events out of time order - a trial's results arrive out of order and with time stamps in the past")
     nx = c.methods["next_until"]
     tops = [U(x.targets[0].elts[0]) for x in walk_shallow(nx.node) if isinstance(x, ast.Assign) and isinstance(x.targets[0], ast.Tuple)
             and U(x.value) == "self.event_heap[0]"]
